@@ -16,7 +16,7 @@ package bigxy
 //@   requires len(vectorOrigin) >= 2 && len(vectorEnd) >= 2 && len(point) >= 2
 //@   ensures res == 2 || res == sgnOf(cross2(vectorOrigin[0], vectorOrigin[1], vectorEnd[0], vectorEnd[1], point[0], point[1]))
 //@   modifies nothing
-//@   at stmt16: assert [shewchuk-bound] detsum == abs(detleft) + abs(detright) && errbound == dpSafeEpsilon * (abs(detleft) + abs(detright))
+//@   at stmt[errbound := dpSafeEpsilon * detsum]: assert [shewchuk-bound] detsum == abs(detleft) + abs(detright) && errbound == dpSafeEpsilon * (abs(detleft) + abs(detright))
 
 // the extended-precision branch, with big.Float values as exact reals (trusted model of math/big; the
 // precision actually carried by the temporaries is not part of this contract)
@@ -31,6 +31,6 @@ package bigxy
 //@   ensures res == sgnOf(cross2(vectorOrigin[0], vectorOrigin[1], vectorEnd[0], vectorEnd[1], point[0], point[1]))
 //@   at exit: use crossForms(vectorOrigin[0], vectorOrigin[1], vectorEnd[0], vectorEnd[1], point[0], point[1])
 //@   modifies nothing
-//@   at stmt12: assert bvs(dx1) == vectorEnd[0] - vectorOrigin[0] && bvs(dy1) == vectorEnd[1] - vectorOrigin[1] && bvs(dx2) == point[0] - vectorEnd[0] && bvs(dy2) == point[1] - vectorEnd[1]
-//@   at stmt14: assert bvs(dx1) == (vectorEnd[0] - vectorOrigin[0]) * (point[1] - vectorEnd[1]) && bvs(dy1) == (vectorEnd[1] - vectorOrigin[1]) * (point[0] - vectorEnd[0])
-//@   at stmt15: assert bvs(dx1) == cross2b(vectorOrigin[0], vectorOrigin[1], vectorEnd[0], vectorEnd[1], point[0], point[1])
+//@   at stmt[dy2.SetFloat64(point[1]).Add(&dy2, big.NewFloat(-vectorEnd[1]))]: assert bvs(dx1) == vectorEnd[0] - vectorOrigin[0] && bvs(dy1) == vectorEnd[1] - vectorOrigin[1] && bvs(dx2) == point[0] - vectorEnd[0] && bvs(dy2) == point[1] - vectorEnd[1]
+//@   at stmt[dy1.Mul(&dy1, &dx2)]: assert bvs(dx1) == (vectorEnd[0] - vectorOrigin[0]) * (point[1] - vectorEnd[1]) && bvs(dy1) == (vectorEnd[1] - vectorOrigin[1]) * (point[0] - vectorEnd[0])
+//@   at stmt[dx1.Sub(&dx1, &dy1)]: assert bvs(dx1) == cross2b(vectorOrigin[0], vectorOrigin[1], vectorEnd[0], vectorEnd[1], point[0], point[1])
